@@ -75,7 +75,7 @@ def parse_request(line):
     t = line.split(" ")
     r = Req()
     r.cmd = t[0]
-    if r.cmd not in ("bwsh", "bwlsh"):
+    if r.cmd not in ("bwsh", "bwlsh", "bwlshb"):
         raise Scope("not a C11 command")
     r.budget = None if t[1] == "-" else int(t[1])
     i = 2
@@ -92,12 +92,18 @@ def parse_request(line):
         raise Scope("placeholder tables are not C11 inputs")
     r.desc_tokens = t[2:i]
     r.locals = None
-    if r.cmd == "bwlsh":
+    if r.cmd in ("bwlsh", "bwlshb"):
         if t[i] != "L":
             raise ValueError("expected L")
         n = int(t[i + 1])
         r.locals = [unhx(x) for x in t[i + 2:i + 2 + n]]
         i += 2 + n
+        if r.cmd == "bwlshb":
+            # texts added to the builder AFTER Build(): the fixed table must not know them
+            if t[i] != "X":
+                raise ValueError("expected X")
+            i += 2 + int(t[i + 1])
+            r.cmd = "bwlsh"
     if t[i] != "--":
         raise ValueError("expected --")
     r.calls = iongen.split_calls(t[i + 1:])
@@ -949,6 +955,29 @@ def line_fixed(tables, flocals, calls, budget="-"):
                     ["L", str(len(flocals))] + [hx(x) for x in flocals] + ["--"] + calls)
 
 
+def line_fixed_builder(tables, flocals, extra, calls, budget="-"):
+    """the same writer, but its fixed table is symbolTableBuilder.Build() and `extra` is added to the builder afterwards"""
+    return " ".join(["bwlshb", budget] + [x for tb in tables for x in tb.desc()] +
+                    ["L", str(len(flocals))] + [hx(x) for x in flocals] +
+                    ["X", str(len(extra))] + [hx(x) for x in extra] + ["--"] + calls)
+
+
+SYSTEM_TEXTS = [b"$ion", b"$ion_1_0", b"$ion_symbol_table", b"name", b"version", b"imports", b"symbols", b"max_id",
+                b"$ion_shared_symbol_table"]
+
+
+def builder_equals_literal(tables, flocals):
+    """Build() of a builder fed with flocals is NewLocalSymbolTable(tables, flocals) when Add skips nothing"""
+    seen = set(SYSTEM_TEXTS)
+    for tb in tables:
+        seen.update(x for x in tb.slots() if x is not None)
+    for x in flocals:
+        if x in seen:
+            return False
+        seen.add(x)
+    return True
+
+
 def lists_upto(alpha, n):
     import itertools
     out = []
@@ -1052,6 +1081,18 @@ def gen_fixed(ctx):
         g = CallGen(rng, tables, locs, rng.choice([0, 0, 0, 0.03, 0.08, 0.2]), rng.choice([0, 0, 0.08, 0.15]))
         calls = g.batches(rng.choice([1, 1, 2, 2, 3]), final_fin=rng.random() < 0.9)
         lines.append(line_fixed(tables, locs, calls))
+        if builder_equals_literal(tables, locs) and rng.random() < 0.5:
+            # the table as a builder's snapshot; the builder then learns every text the calls mention (and two more)
+            used = sorted({bytes.fromhex(m) for m in re.findall(r"tk,x([0-9a-f]*),", " ".join(calls))} |
+                          {bytes.fromhex(m) for m in re.findall(r"SFS x([0-9a-f]*)", " ".join(calls))})
+            lines.append(line_fixed_builder(tables, locs, used + [b"later1", b"later2"], calls))
+    for locs, extra, calls in (
+            ([b"x"], [b"y"], ["SYM", tk(b"x"), "SYM", tk(b"y"), "FIN"]),
+            ([b"x"], [b"y", b"z"], ["AN", tk(b"y"), "INT", "1", "FIN"]),
+            ([], [b"y"], ["BT", "FN", tk(b"y"), "INT", "1", "ET", "FIN"]),
+            ([b"a", b"b"], [b"c"], ["SFS", hx(b"c"), "SYM", tk(b"b"), "FIN", "SYM", tk(b"c"), "FIN"])):
+        lines.append(line_fixed_builder([], locs, extra, calls))
+        lines.append(line_fixed_builder([Table(b"t", 1, [b"q", b"r"], [])], locs, extra, calls))
     return lines
 
 
